@@ -10,11 +10,14 @@ CONSTANTS
   SweepAlphabet <- MC_AllSweeps
   DecoAlphabet <- MC_AllDeco
   BigChoices <- MC_BothBig
+  ZeroChoices <- MC_NoZero
+  ZeroToleranceFallsBack = FALSE
   LaggedRecordedAtSetup = FALSE
   Hyp_NoCap = FALSE
 INVARIANT TypeOK
 INVARIANT C02_SolvedOnlyIfConverged
 INVARIANT C02_SolvedOnlyAfterSweep
+INVARIANT C11_SolvedOnlyAtRequestedTolerance
 INVARIANT C02_PeriodAllOrNothing
 INVARIANT C11_BoundedSweeps
 INVARIANT C11_NothingSolvedAtCap
